@@ -20,6 +20,7 @@ CONSTANTS
   HandlerIds = {}
   Kinds = {"fd", "tmr"}
   Keys = {1}
+  BadKeys = {}
   SrcOpts <- Opts_all
   EvKinds = {"ps", "fd", "tmr"}
   MaxBatch = 2
